@@ -849,3 +849,159 @@ Lemma d7_refuted :
   present s 0 = true /\ kctx s = 1 /\ ninst s = 1 /\ failed (getr s 0) = true /\ rretry (getr s 0) = None /\
   map tst (timers s) = [TStopped].
 Proof. vm_compute. repeat split; reflexivity. Qed.
+
+(* ------------------------------------------------------------------ *)
+(* nothing is started while the container has no context *)
+Definition NS (s s' : st) : Prop := kctx s' = kctx s /\ (kctx s = 0 -> length (insts s') = length (insts s)).
+Lemma NS_refl s : NS s s. Proof. split; auto. Qed.
+Lemma NS_trans s s1 s2 : NS s s1 -> NS s1 s2 -> NS s s2.
+Proof. intros [A1 A2] [B1 B2]. split; [congruence|]. intros H. rewrite B2 by congruence. auto. Qed.
+Lemma NS_ext s s' : kctx s' = kctx s -> length (insts s') = length (insts s) -> NS s s'.
+Proof. intros A B. split; auto. Qed.
+Ltac nse := apply NS_ext; reflexivity.
+Lemma NS_cancel_inst s oi : NS s (cancel_inst s oi).
+Proof. destruct (cancel_inst_frame s oi) as [_ [_ [_ [_ [C5 [_ [_ [_ [_ [_ C11]]]]]]]]]]. now apply NS_ext. Qed.
+Lemma NS_stop_timer s ot : NS s (stop_timer s ot).
+Proof. destruct (stop_timer_frame s ot) as [_ [_ [T3 [_ [T5 _]]]]]. apply NS_ext; [exact T5 | now rewrite T3]. Qed.
+Lemma NS_start s r c w f : has_ctx s = true -> NS s (start_rec s r c w f).
+Proof.
+  intros H. split; [|intros E; unfold has_ctx in H; rewrite E in H; discriminate].
+  unfold start_rec. cases; try reflexivity. cbn [kctx setr set_recs set_insts].
+  destruct (cancel_inst_frame (stop_timer s (rretry (getr s r))) (rcancel (getr s r))) as [_ [_ [_ [_ [C5 _]]]]].
+  destruct (stop_timer_frame s (rretry (getr s r))) as [_ [_ [_ [_ [T5 _]]]]]. congruence.
+Qed.
+Lemma NS_start_if (b : bool) s r c w f : NS s (if b && has_ctx s then start_rec s r c w f else s).
+Proof. destruct (has_ctx s) eqn:E; [destruct b; cbn [andb]; [now apply NS_start | apply NS_refl] | rewrite andb_false_r; apply NS_refl]. Qed.
+Lemma NS_start_if' s r c w f : NS s (if has_ctx s then start_rec s r c w f else s).
+Proof. apply (NS_start_if true). Qed.
+Lemma NS_new_record s k lin w : NS s (fst (new_record s k lin w)). Proof. nse. Qed.
+Lemma NS_remove_now s r : NS s (remove_now s r).
+Proof. unfold remove_now. eapply NS_trans; [apply NS_cancel_inst|]. eapply NS_trans; [apply NS_stop_timer | nse]. Qed.
+Lemma NS_remove_rec s r : NS s (remove_rec s r).
+Proof. unfold remove_rec. cases; [apply NS_refl | apply NS_remove_now | nse]. Qed.
+Lemma NS_unremove s r : NS s (unremove s r).
+Proof. unfold unremove. destruct (rremove (getr s r)); [|apply NS_refl]. eapply NS_trans; [apply NS_stop_timer | nse]. Qed.
+Lemma NS_unretry s r : NS s (unretry s r).
+Proof. unfold unretry. destruct (rretry (getr s r)); [|apply NS_refl]. eapply NS_trans; [apply NS_stop_timer | nse]. Qed.
+
+Lemma NS_set_key s k st : NS s (fst (set_key repaired s k st)).
+Proof.
+  unfold set_key. destruct (lookup (kmap s) k) as [r|].
+  - cbn [fx_setkey repaired fst]. eapply NS_trans; [apply NS_unremove | apply NS_start_if].
+  - pose proof (NS_new_record s k (nlin s) None) as G. destruct (new_record s k (nlin s) None) as [s1 r]. cbn [fst] in *.
+    eapply NS_trans; [exact G|]. eapply (NS_trans _ (set_nlin s1 (S (nlin s1)))); [nse | apply NS_start_if'].
+Qed.
+Lemma NS_remove_key s k : NS s (fst (remove_key s k)).
+Proof. unfold remove_key. destruct (lookup (kmap s) k); cbn [fst]; [apply NS_remove_rec | apply NS_refl]. Qed.
+Lemma NS_fold_acc {A E} (pr : A -> st) (f : A -> E -> A) :
+  (forall a e, NS (pr a) (pr (f a e))) -> forall es a, NS (pr a) (pr (fold_left f es a)).
+Proof. intros Hf es. induction es as [|e es IH]; intros a; cbn [fold_left]; [apply NS_refl | eapply NS_trans; [apply Hf | apply IH]]. Qed.
+Lemma NS_sync_one restart acc k : NS (fst (fst acc)) (fst (fst (sync_one repaired restart acc k))).
+Proof.
+  destruct acc as [[s seen] added]. cbn [fst]. unfold sync_one. destruct (mem k seen); [apply NS_refl|].
+  destruct (lookup (kmap s) k) as [r|].
+  - cbn [fx_sync repaired fst]. eapply NS_trans; [apply NS_unremove | apply NS_start_if].
+  - pose proof (NS_new_record s k (nlin s) None) as G. destruct (new_record s k (nlin s) None) as [s1 r]. cbn [fst] in *.
+    eapply NS_trans; [exact G|]. eapply (NS_trans _ (set_nlin s1 (S (nlin s1)))); [nse | apply NS_start_if'].
+Qed.
+Lemma NS_sync_rm keys acc k : NS (fst acc) (fst (sync_rm keys acc k)).
+Proof. destruct acc as [s removed]. unfold sync_rm. destruct (mem k keys); cbn [fst]; [apply NS_refl | apply NS_remove_key]. Qed.
+Lemma NS_sync_keys s keys restart : NS s (fst (sync_keys repaired s keys restart)).
+Proof.
+  unfold sync_keys.
+  pose proof (NS_fold_acc (fun acc : st * list nat * list nat => fst (fst acc)) (sync_one repaired restart) (NS_sync_one restart) keys (s, [], [])) as G1.
+  destruct (fold_left (sync_one repaired restart) keys (s, [], [])) as [[s1 seen] added]. cbn [fst] in G1.
+  pose proof (NS_fold_acc (fun acc : st * list nat => fst acc) (sync_rm keys) (NS_sync_rm keys) (map fst (kmap s1)) (s1, [])) as G2.
+  destruct (fold_left (sync_rm keys) (map fst (kmap s1)) (s1, [])) as [s2 removed]. cbn [fst] in *. eapply NS_trans; eauto.
+Qed.
+Lemma NS_reset_routine s k cond : NS s (fst (reset_routine repaired s k cond)).
+Proof.
+  unfold reset_routine. destruct (lookup (kmap s) k) as [r|]; [|apply NS_refl]. destruct (negb (cond_match cond k)); [apply NS_refl|].
+  set (s1 := cancel_inst s (rcancel (getr s r))). set (w0 := if has_ctx s1 || fx_reset repaired then _ else _).
+  pose proof (NS_new_record s1 k (rlin (getr s r)) w0) as G. destruct (new_record s1 k (rlin (getr s r)) w0) as [s2 r2]. cbn [fst] in *.
+  eapply NS_trans; [apply NS_cancel_inst|]. fold s1. eapply NS_trans; [exact G | apply NS_start_if'].
+Qed.
+Lemma NS_restart_routine s k cond : NS s (fst (restart_routine s k cond)).
+Proof.
+  unfold restart_routine. destruct (lookup (kmap s) k) as [r|]; [|apply NS_refl].
+  destruct (has_ctx s) eqn:E; cbn [negb]; [|apply NS_refl]. destruct (negb (cond_match cond k)); [apply NS_refl|]. cbn [fst].
+  eapply (NS_trans _ (setr (cancel_inst s (rcancel (getr s r))) r (with_cancel (getr s r) None))); [eapply NS_trans; [apply NS_cancel_inst | nse]|].
+  apply NS_start. unfold has_ctx in *. cbn [kctx setr set_recs]. destruct (cancel_inst_frame s (rcancel (getr s r))) as [_ [_ [_ [_ [C5 _]]]]]. now rewrite C5.
+Qed.
+Lemma NS_all_step f cond acc k : (forall s k c, NS s (fst (f s k c))) -> NS (fst acc) (fst (all_step f cond acc k)).
+Proof. intros Hf. destruct acc as [s n]. unfold all_step. pose proof (Hf s k cond) as G. destruct (f s k cond) as [s' [ex rs]]. exact G. Qed.
+Lemma NS_reset_all s cond : NS s (fst (reset_all repaired s cond)).
+Proof.
+  unfold reset_all.
+  pose proof (NS_fold_acc (fun acc : st * nat => fst acc) (all_step (reset_routine repaired) cond) (fun a e => NS_all_step _ cond a e NS_reset_routine) (map fst (kmap s)) (s, 0)) as G.
+  destruct (fold_left _ _ (s, 0)) as [s' n]. exact G.
+Qed.
+Lemma NS_restart_all s cond : NS s (fst (restart_all s cond)).
+Proof.
+  unfold restart_all.
+  pose proof (NS_fold_acc (fun acc : st * nat => fst acc) (all_step restart_routine cond) (fun a e => NS_all_step _ cond a e NS_restart_routine) (map fst (kmap s)) (s, 0)) as G.
+  destruct (fold_left _ _ (s, 0)) as [s' n]. exact G.
+Qed.
+Lemma NS_add_key_ref s k : NS s (fst (add_key_ref repaired s k)).
+Proof. unfold add_key_ref. pose proof (NS_set_key s k true) as G. destruct (set_key repaired s k true) as [s1 res]. cbn [fst] in *. eapply NS_trans; [exact G | nse]. Qed.
+Lemma NS_release_section s a : NS s (release_section s a).
+Proof.
+  unfold release_section. destruct (nth_error (rels s) a) as [l|]; [|apply NS_refl]. destruct (lparked l); [|apply NS_refl].
+  set (s1 := set_rels s _). assert (G1 : NS s s1) by nse.
+  destruct (nth_error (refs s1) (lref l)) as [x|]; [|exact G1]. destruct (fin x); [|exact G1].
+  set (s2 := set_refs s1 _). assert (G2 : NS s s2) by nse.
+  destruct (Nat.eqb _ 0); [eapply NS_trans; [exact G2 | apply NS_remove_key] | exact G2].
+Qed.
+Lemma NS_bookkeep s i : NS s (bookkeep s i).
+Proof.
+  unfold bookkeep. destruct (nth_error (insts s) i) as [x|] eqn:Ex; [|apply NS_refl]. destruct (ipcv x); try apply NS_refl.
+  set (s0 := seti s i (with_pc x IDone)).
+  assert (G0 : NS s s0) by (apply NS_ext; [reflexivity | unfold s0; rewrite insts_seti; apply length_set_nth]).
+  destruct (rctx (getr s (irec x))) as [j|]; [|exact G0]. destruct (Nat.eqb j i); [|exact G0].
+  assert (G : forall S y l, NS s S -> NS s (set_cblog (setr S (irec x) y) l)) by (intros S y l HS; eapply NS_trans; [exact HS | nse]).
+  destruct (script s0) as [l|]; [|now apply G].
+  assert (G' : NS s (stop_timer s0 (rretry (getr s (irec x))))) by (eapply NS_trans; [exact G0 | apply NS_stop_timer]).
+  destruct (is_nil o); [now apply G|]. destruct (in_map _ _); [|now apply G].
+  destruct (nth_error l _); [|now apply G]. apply G. eapply NS_trans; [exact G' | nse].
+Qed.
+Lemma NS_seti_len s i x x' : nth_error (insts s) i = Some x -> NS s (seti s i x').
+Proof. intros H. apply NS_ext; [reflexivity | rewrite insts_seti; apply length_set_nth]. Qed.
+Lemma NS_timer_cb s t : NS s (timer_cb repaired s t).
+Proof.
+  unfold timer_cb. destruct (nth_error (timers s) t) as [x|]; [|apply NS_refl]. destruct (tst x); try apply NS_refl.
+  set (s1 := set_timers s _). assert (G1 : NS s s1) by nse.
+  destruct (tkind x).
+  - destruct (in_map s1 (trec x) && _); [|exact G1].
+    eapply NS_trans; [exact G1|]. eapply NS_trans; [|apply NS_remove_now]. eapply NS_trans; [apply NS_stop_timer | nse].
+  - destruct (has_ctx s1) eqn:E; cbn [andb]; [|exact G1].
+    destruct (in_map s1 (trec x) && rexited (getr s1 (trec x))); [eapply NS_trans; [exact G1 | now apply NS_start] | exact G1].
+Qed.
+
+Lemma clear_context_no_spawn s restart : length (insts (set_context s 0 restart)) = length (insts s).
+Proof.
+  unfold set_context. destruct (Nat.eqb (kctx s) 0 && negb restart); [reflexivity|].
+  change (length (insts s)) with (length (insts (set_kctx s 0))).
+  generalize (map fst (kmap (set_kctx s 0))) as ks. generalize (set_kctx s 0) as s0.
+  intros s0 ks. revert s0. induction ks as [|k ks IH]; intros s0; cbn [fold_left]; [reflexivity|]. rewrite IH. unfold ctx_key.
+  destruct (lookup (kmap s0) k) as [r|]; [|reflexivity]. destruct (_ && is_nil _); [reflexivity|].
+  rewrite andb_false_r. rewrite insts_setr. apply cancel_inst_frame.
+Qed.
+
+Theorem no_context_no_spawn s e :
+  kctx s = 0 -> (forall c r, e = ESetCtx c r -> c = 0) -> length (insts (step repaired s e)) = length (insts s).
+Proof.
+  intros Hk He. destruct e; cbn [step].
+  - rewrite (He c restart eq_refl). apply clear_context_no_spawn.
+  - now apply NS_set_key. - now apply NS_remove_key. - now apply NS_sync_keys. - reflexivity.
+  - now apply NS_reset_routine. - now apply NS_restart_routine. - now apply NS_reset_all. - now apply NS_restart_all.
+  - now apply NS_add_key_ref.
+  - unfold release_start. cases; reflexivity.
+  - now apply NS_release_section.
+  - unfold rc_remove_key. apply (NS_remove_key (set_refs s _) k). exact Hk.
+  - unfold proceed. cases; try reflexivity; rewrite insts_seti; apply length_set_nth.
+  - unfold wake. cases; try reflexivity; rewrite insts_seti; apply length_set_nth.
+  - unfold fn_return. cases; try reflexivity; rewrite insts_seti; apply length_set_nth.
+  - now apply NS_bookkeep.
+  - reflexivity.
+  - now apply NS_timer_cb.
+Qed.
